@@ -240,6 +240,42 @@ theorem C05_guns_never_closed_twice (cfg : Cfg) (cs : List Choice) :
   · have := hi.live0 i hi1 g hi2
     omega
 
+/-- `Engine.Wait` does not return EARLY: `onWaitDone` is called only when nothing the pool has started is still at
+work - no instance goroutine, no unread run result, the provider and the aggregator have returned and their results
+were read (or they were never started), the start goroutine has ended - in every variant, with no assumption. -/
+theorem C05_wait_not_early (cfg : Cfg) (cs : List Choice) :
+    (run cfg cs).waitDone = 1 →
+      (run cfg cs).live = [] ∧ (run cfg cs).buf = [] ∧
+      ((run cfg cs).prov = .idle ∨ (run cfg cs).prov = .taken) ∧ ((run cfg cs).agg = .idle ∨ (run cfg cs).agg = .taken) ∧
+      ((run cfg cs).startPc = .idle ∨ ((run cfg cs).startPc = .done ∧ (run cfg cs).startTaken = true)) := by
+  intro hwd
+  obtain ⟨hW, _, _⟩ := run_invA cfg cs
+  generalize run cfg cs = s at *
+  have hnb : ¬ AwBusy s := fun hb => by have := hW.wd0 hb; omega
+  cases haw : s.aw with
+  | off =>
+    obtain ⟨h1, h2, h3, h4, h5, _⟩ := hW.pre haw
+    exact ⟨h4, h5, Or.inl h1, Or.inl h2, Or.inl h3⟩
+  | loop => exact absurd (Or.inl haw) hnb
+  | onErr w r c => exact absurd (Or.inr ⟨w, r, c, haw⟩) hnb
+  | finished =>
+    have hne : s.aw ≠ .off := by simp [haw]
+    have htw := hW.toWait hne
+    rw [hW.fin haw] at htw
+    have hc : (s.prov = .taken ∧ s.agg = .taken) ∧ s.startTaken = true ∧ s.runResOpen = false := by
+      simp only [cnt] at htw
+      refine ⟨⟨?_, ?_⟩, ?_, ?_⟩ <;> grind
+    have hcl := hW.closedRun hne hc.2.2
+    have hsd : s.startPc = .done := hW.startDone.2 (hW.taken hc.2.1).1
+    exact ⟨hcl.2.1, hcl.2.2, Or.inr hc.1.1, Or.inr hc.1.2, Or.inr ⟨hsd, hc.2.1⟩⟩
+
+-- non-vacuity: a failed run whose tasks have all been awaited in the background
+example :
+    (run Cfg.repaired [.warm (.ok true), .sched none, .provRet (.err 1), .awaitProv, .errDeliver,
+      .aggRet .ctx, .awaitAgg, .startEnd, .awaitStart]).waitDone = 1 ∧
+    (run Cfg.repaired [.warm (.ok true), .sched none, .provRet (.err 1), .awaitProv, .errDeliver,
+      .aggRet .ctx, .awaitAgg]).waitDone = 0 := by decide
+
 /-- A nil result of `Pool.Run` means the pool is completely finished — with NO fairness or contract assumption:
 all four results were awaited (so every started instance has returned and its result was consumed, the provider and the
 aggregator have returned, the start goroutine has ended), `onWaitDone` was called exactly once, and every gun created
